@@ -12,6 +12,8 @@ def explore(run, lean):
                          "instrumented / queued hosts; thorough tier adds all trees with <=5 states x all (cur,S,T) x all single "
                          "init assignments; non-trivial = the script reaches the property's mechanism (see histogram); "
                          "distinct by canonical JSON")
+    ROUND6_RULE = '; handlers in the register_parent style that ask `chart.parent_callback()` without argument (queued hosts)'
+    run.extra["rule"] += ROUND6_RULE
 
 
 def replay(case):
